@@ -199,7 +199,35 @@ def _enc_bip(g):
     return out
 
 
+def _gen_di(rng):
+    n = rng.choice([0, 1, 2, 3, 4, 5])
+    if rng.random() < 0.8:
+        pairs = [(u, v) for u in range(1, n + 1) for v in range(u + 1, n + 1)]      # a DAG in topological order
+    else:
+        pairs = [(u, v) for u in range(1, n + 1) for v in range(1, n + 1) if u != v]
+    rng.shuffle(pairs)
+    return (n, pairs[:rng.randint(0, len(pairs))])
+
+
+def _real_di(g):
+    from cnfgen.graphs import DirectedGraph
+    n, es = g
+    D = DirectedGraph(n)
+    for u, v in es:
+        D.add_edge(u, v)
+    return D
+
+
+def _enc_di(g):
+    n, es = g
+    out = [n, len(es)]
+    for u, v in es:
+        out += [u, v]
+    return out
+
+
 ABS = {
+    "AbsDiGraph": {"gen": _gen_di, "real": _real_di, "encode": _enc_di},
     "AbsFormula": {"gen": lambda rng: rng.choice([0, 0, 1, 3, 7, 100, 2 ** 40]), "real": _formula,
                    "encode": lambda n: [n]},
     "AbsBipGraph": {"gen": _gen_bip, "real": _real_bip, "encode": _enc_bip},
